@@ -411,7 +411,7 @@ def make_case(seed, n):
     return {"n": n, "seed": seed}
 
 
-def run_shard(rec, shard, nshards):
+def _run_shard_workload(rec, shard, nshards):
     effects.install()
     common.loop(rec, shard, nshards, N[rec.tier], CAP[rec.tier], lambda n: run_case(rec, make_case(rec.seed, n)))
 
@@ -481,3 +481,14 @@ def canaries(rec):
         write("application", sb3 + b"\xff" * (size - len(sb3)), 0x1000 + o))))
     shutil.rmtree(os.path.join(wd, "can"), ignore_errors=True)
     return out
+
+
+FAULT_PLANE_OPS = ('boot',)
+
+
+def run_shard(rec, shard, nshards):
+    _run_shard_workload(rec, shard, nshards)
+    if shard == 5 % nshards:
+        # complete enumeration of the single file-boundary faults of this property's operations (faultplane.py)
+        from . import faultplane
+        faultplane.run(rec, ID, FAULT_PLANE_OPS)
